@@ -1,6 +1,6 @@
 // selftest_idna.cpp -- "who checks the checker" for ref::idna.
 //
-//   selftest_idna <data_dir> [-v]
+//   selftest_idna <data_dir> [-v] [-q]      (-v: print every failure, -q: random parts / 8)
 //
 // build: clang++ -std=c++17 -O1 -g ref/refidna.cpp ref/selftest_idna.cpp -o selftest_idna -licuuc
 // (ICU is used by the self-test only, as a second opinion; refidna.cpp does not depend on it.)
@@ -39,6 +39,7 @@ namespace ri = ref::idna;
 
 static long g_pass = 0, g_fail = 0;
 static bool g_verbose = false;
+static long g_scale = 1;  // -q divides the sizes of the random parts by 8
 
 static std::string hexcps(const std::u32string& s) {
   std::string r;
@@ -360,7 +361,7 @@ static void part_b(const std::string& data_dir) {
   for (char32_t c = 0xAC00; c <= 0xD7A3; c += 28) pool_hangul.push_back(c);
   std::printf("part b3: %ld single code points (age<=15.0) vs ICU NFD+NFC, %ld property checks\n", singles, prop);
   Lcg rng(0x15a5eed);
-  const long kStrings = 300000;
+  const long kStrings = 300000 / g_scale;
   long bad = 0;
   for (long i = 0; i < kStrings; i++) {
     size_t len = 1 + rng.below(8);
@@ -472,7 +473,7 @@ static void part_c(const std::string& data_dir) {
   }
   Lcg rng(0x3492);
   long n = 0;
-  for (long i = 0; i < 200000; i++) {
+  for (long i = 0; i < 200000 / g_scale; i++) {
     size_t len = rng.below(14);
     std::u32string s;
     uint32_t kind = rng.below(4);
@@ -673,7 +674,7 @@ static void part_e() {
   const uint32_t na = sizeof(alpha) / sizeof(alpha[0]);
   Lcg rng(0x46e);
   long compared = 0, skipped_ace_ascii = 0, n_ok = 0, n_bidi = 0, n_bidi_ok = 0, n_bidi_err = 0, n_bidi_only = 0, n_ctxj_err = 0, n_ctxj_only = 0, n_joiner_ok = 0, bad = 0;
-  const long kN = 400000;
+  const long kN = 400000 / g_scale;
   for (long i = 0; i < kN; i++) {
     std::u32string dom;
     int labels = 1 + (int)rng.below(3);
@@ -796,10 +797,13 @@ static void perf() {
 
 int main(int argc, char** argv) {
   if (argc < 2) {
-    std::fprintf(stderr, "usage: %s data_dir [-v]\n", argv[0]);
+    std::fprintf(stderr, "usage: %s data_dir [-v] [-q]\n", argv[0]);
     return 2;
   }
-  g_verbose = argc > 2 && std::string(argv[2]) == "-v";
+  for (int i = 2; i < argc; i++) {
+    if (std::string(argv[i]) == "-v") g_verbose = true;
+    if (std::string(argv[i]) == "-q") g_scale = 8;
+  }
   std::string err;
   if (!ri::load_tables(argv[1], &err)) {
     std::fprintf(stderr, "load_tables: %s\n", err.c_str());
